@@ -44,7 +44,11 @@ def build():
     w.ret("r")
     w.props_all = ["C15", "C09"]
     w.props_safety = ["C13"]
-    w.contract("""    ensures
+    w.contract("""    requires
+        // representation invariant of PaddedWriter (established by `new`, kept by every method): the position is kept modulo 8
+        old(self).offset < 8,
+    ensures
+        final(self).offset < 8,
         /*@L:write_all_delivers_all_or_prefix:C15*/ match r {
             Ok(_) => final(self).inner.sunk() == old(self).inner.sunk() + buf@,
             Err(_) => delivered_prefix(old(self).inner.sunk(), final(self).inner.sunk(), buf@),
@@ -56,7 +60,9 @@ def build():
     p.ret("r")
     p.props_all = ["C15", "C09"]
     p.props_safety = ["C13"]
-    p.contract("""    ensures
+    p.contract("""    requires old(self).offset < 8,
+    ensures
+        final(self).offset < 8,
         /*@L:padding_is_zero_bytes_to_next_multiple_of_8:C15,C09*/ match r {
             Ok(_) => ext_by_zeros(old(self).inner.sunk(), final(self).inner.sunk(), pad_len(old(self).offset as int)) && final(self).offset == 0,
             Err(_) => 0 <= final(self).inner.sunk().len() - old(self).inner.sunk().len() <= pad_len(old(self).offset as int)
